@@ -6,9 +6,22 @@ thread_local! {
     static STALE: RefCell<BTreeMap<String, u64>> = RefCell::new(BTreeMap::new());
     static COLLECTIONS: Cell<u64> = const { Cell::new(0) };
     static SWEPT: Cell<u64> = const { Cell::new(0) };
+    static STALE_LOG_OFF: Cell<bool> = const { Cell::new(false) };
+    static STALE_TOTAL: Cell<u64> = const { Cell::new(0) };
 }
 
+/// Pause (`false`) or resume (`true`, the default) the stale-handle event log of this thread.
+/// Capturing and symbolising a backtrace per event is expensive; a harness that uses stale handles
+/// on purpose (C13) pauses the log and reads only `stale_total()`.
+pub fn set_stale_log(enabled: bool) { STALE_LOG_OFF.with(|c| c.set(!enabled)); }
+/// Number of stale-handle events seen by this thread (counted even while the log is paused).
+pub fn stale_total() -> u64 { STALE_TOTAL.with(|c| c.get()) }
+
 pub fn stale_event(op: &'static str) {
+    STALE_TOTAL.with(|c| c.set(c.get() + 1));
+    if STALE_LOG_OFF.with(|c| c.get()) {
+        return;
+    }
     let bt = std::backtrace::Backtrace::force_capture().to_string();
     let mut frames: Vec<&str> = Vec::new();
     for line in bt.lines() {
